@@ -1,0 +1,56 @@
+//go:build verif
+
+// Contracts for govc (comment-only file; see /verif/DESIGN.md section 3).
+package arith
+
+//@ spec fn bitlen(Int) Int
+
+//@ func IsValidNatModN
+//@   nopanic[C05]
+//@   requires N != nil
+//@   modifies nothing
+//@   ensures result ==> each(ints, x, x != nil)
+//@   loop 1: invariant each(ints[:rangeindex+1], x, x != nil)
+
+//@ func IsValidBigModN
+//@   nopanic[C05]
+//@   modifies nothing
+//@   allocates
+//@   requires N != nil
+//@   ensures result ==> each(ints, x, x != nil)
+//@   loop 1: invariant each(ints[:rangeindex+1], x, x != nil)
+
+//@ func IsInIntervalLEps
+//@   nopanic[C05]
+//@   modifies nothing
+//@   ensures result ==> n != nil && bitlen(n) <= 768
+
+//@ func IsInIntervalLPrimeEps
+//@   nopanic[C05]
+//@   modifies nothing
+//@   ensures result ==> n != nil && bitlen(n) <= 1792
+
+//@ func IsInIntervalLEpsPlus1RootN
+//@   nopanic[C05]
+//@   modifies nothing
+//@   ensures result ==> n != nil && bitlen(n) <= 1793
+
+//@ func ModulusFromN
+//@   nopanic[C05]
+//@   modifies nothing
+//@   allocates
+//@   ensures result != nil && result.Modulus == n
+
+//@ func (*Modulus).Exp
+//@   nopanic[C05]
+//@   modifies nothing
+//@   allocates
+//@   requires n != nil && n.Modulus != nil && x != nil && e != nil
+//@   ensures result != nil
+
+//@ func (*Modulus).ExpI
+//@   nopanic[C05]
+//@   modifies nothing
+//@   allocates
+//@   requires n != nil && n.Modulus != nil && x != nil && e != nil
+//@   ensures result != nil
